@@ -10,9 +10,18 @@ theories/Rollup.vos theories/Rollup.vok theories/Rollup.required_vos: theories/R
 theories/RollupProofs.vo theories/RollupProofs.glob theories/RollupProofs.v.beautified theories/RollupProofs.required_vo: theories/RollupProofs.v theories/Base.vo theories/Status.vo theories/Rollup.vo gen/StatusTable.vo
 theories/RollupProofs.vio: theories/RollupProofs.v theories/Base.vio theories/Status.vio theories/Rollup.vio gen/StatusTable.vio
 theories/RollupProofs.vos theories/RollupProofs.vok theories/RollupProofs.required_vos: theories/RollupProofs.v theories/Base.vos theories/Status.vos theories/Rollup.vos gen/StatusTable.vos
+theories/Runner.vo theories/Runner.glob theories/Runner.v.beautified theories/Runner.required_vo: theories/Runner.v theories/Base.vo theories/Status.vo theories/Rollup.vo gen/StatusTable.vo
+theories/Runner.vio: theories/Runner.v theories/Base.vio theories/Status.vio theories/Rollup.vio gen/StatusTable.vio
+theories/Runner.vos theories/Runner.vok theories/Runner.required_vos: theories/Runner.v theories/Base.vos theories/Status.vos theories/Rollup.vos gen/StatusTable.vos
+theories/RunnerEq.vo theories/RunnerEq.glob theories/RunnerEq.v.beautified theories/RunnerEq.required_vo: theories/RunnerEq.v theories/Base.vo theories/Status.vo theories/Rollup.vo theories/Runner.vo
+theories/RunnerEq.vio: theories/RunnerEq.v theories/Base.vio theories/Status.vio theories/Rollup.vio theories/Runner.vio
+theories/RunnerEq.vos theories/RunnerEq.vok theories/RunnerEq.required_vos: theories/RunnerEq.v theories/Base.vos theories/Status.vos theories/Rollup.vos theories/Runner.vos
 theories/Status.vo theories/Status.glob theories/Status.v.beautified theories/Status.required_vo: theories/Status.v theories/Base.vo
 theories/Status.vio: theories/Status.v theories/Base.vio
 theories/Status.vos theories/Status.vok theories/Status.required_vos: theories/Status.v theories/Base.vos
+props/C01.vo props/C01.glob props/C01.v.beautified props/C01.required_vo: props/C01.v theories/Base.vo theories/Status.vo theories/Rollup.vo theories/Runner.vo
+props/C01.vio: props/C01.v theories/Base.vio theories/Status.vio theories/Rollup.vio theories/Runner.vio
+props/C01.vos props/C01.vok props/C01.required_vos: props/C01.v theories/Base.vos theories/Status.vos theories/Rollup.vos theories/Runner.vos
 props/C03.vo props/C03.glob props/C03.v.beautified props/C03.required_vo: props/C03.v theories/Base.vo theories/Status.vo theories/Rollup.vo theories/RollupProofs.vo gen/StatusTable.vo
 props/C03.vio: props/C03.v theories/Base.vio theories/Status.vio theories/Rollup.vio theories/RollupProofs.vio gen/StatusTable.vio
 props/C03.vos props/C03.vok props/C03.required_vos: props/C03.v theories/Base.vos theories/Status.vos theories/Rollup.vos theories/RollupProofs.vos gen/StatusTable.vos
